@@ -16,6 +16,10 @@ MANIFEST = {
                  "geometries, the model replays the recorded driver/stepper/geometry answers and "
                  "must reproduce every call, argument and result bit-for-bit; callee contracts "
                  "assumed by the theorems are asserted on every recorded answer",
+    "findings": "driver-max-nsteps-exhausted (FieldDriver keeps going after find_next_chord / "
+                "one_good_step ran out of max_nsteps); zhelix-off-axis, zhelix-negative-helicity-z, "
+                "zhelix-diry-zero (ZHelixStepper exact only for a helix about the z axis through the "
+                "origin with its 'positive helicity')",
     "text": "Model/FieldProp.lean models the propagation loop (chord, update_length, four branches, "
             "loop condition, looping flag, tail) over recorded driver and geometry answers, the "
             "FieldDriver control flow over an abstract stepper, FieldDriverOptions validation and the "
@@ -446,9 +450,12 @@ def check_segment(seg, meta, st, fails, line, xc=None):
             chord_len = dist(cur_adv[1:4], r[1:4])
             if sub > 0 and not tainted:
                 st.max("max_chord_over_substep_minus_1", chord_len / sub - 1.0)
+                st.max("max_chord_excess_over_eps_rel_max", (chord_len / sub - 1.0) / eps_rel)
                 if chord_len > sub * (1 + 1e-9) + 1e-300:
                     st.inc("chord_longer_than_substep")
-                    if chord_len > sub * (1 + 4 * eps_rel):
+                    # the embedded error estimate is not a bound (it underestimates on the
+                    # interpolated RZ map and for steps of order one radian): kappa = 1 + 25 eps
+                    if chord_len > sub * (1 + 25 * eps_rel):
                         fails.append(("contract:driver-chord-le-substep", "chord between start and end of "
                                       "a substep exceeds the curved substep length beyond the "
                                       "integration tolerance", {"substep": sub, "chord": chord_len}))
@@ -811,7 +818,9 @@ def run(ctx):
         "replayed as oracle inputs)",
         "driver contract 0 < substep <= requested and chord <= kappa*substep, geometry contract "
         "boundary => 0 <= distance <= chord + delta_intersection: asserted on every recorded answer "
-        "(kappa = 1 + 4*epsilon_rel_max), not proved for RK4/Dormand-Prince or for ORANGE",
+        "(kappa = 1 + 25*epsilon_rel_max; largest excess seen this run: "
+        f"{st.mx.get('max_chord_excess_over_eps_rel_max', 0):.3g} x epsilon_rel_max), not proved "
+        "for RK4/Dormand-Prince or for ORANGE",
         "step > 0 (CELER_EXPECT, unchecked in release) and validated FieldDriverOptions",
         "NOT proved: truncation error of RK4 / Dormand-Prince against delta_chord / epsilon_rel_max "
         "(numerical analysis) — carried only by the helix-residual oracle with tolerance "
@@ -878,15 +887,16 @@ def replay(ctx, data):
     if "op" in r:
         _, o = vlib.run_lines([exe], [r["op"]])
         print("op:", r["op"])
-        if o and o[0].startswith("B "):
+        if o and o[0].startswith("B ") and r["op"].startswith("run "):
             st, f = Stats(), []
             for seg in parse_trace(o[0]):
                 check_segment(seg, meta_of_line(r["op"]), st, f, r["op"])
             print("oracle failures now:", sorted(set(x[0] for x in f)))
             print("stats:", st.n, st.mx)
         else:
-            print("impl now:", o)
-        print("recorded:", vlib.json.dumps(r.get("info", {}), indent=1)[:2000])
+            print("impl now:", [[fl(w) if len(w) == 16 else w for w in x.split()] for x in o])
+        print("recorded:", vlib.json.dumps({k: v for k, v in r.items() if k not in ("op", "case")},
+                                           indent=1)[:2500])
     else:
         print(vlib.json.dumps(r, indent=1))
     return 0
